@@ -4,6 +4,7 @@ import (
 	"fmt"
 	"os"
 	"regexp"
+	"sort"
 	"strings"
 	"testing"
 
@@ -279,6 +280,99 @@ func enumerate(x string, perSite int) []fault {
 			out = append(out, fault{kind: "duplicate:" + what + v.tag, text: strings.Join(nl, "\n")})
 		}
 	}
+	out = append(out, collisions(x, toks, perSite)...)
+	return out
+}
+
+// collisions makes two local definitions of one function share a name by renaming the later one (its
+// definition and every use inside the function) to the name of an earlier one. Unlike the line
+// duplications above this reaches every kind of local definition: parameters, labels, phis,
+// landingpads, and the results of invoke and callbr terminators.
+func collisions(x string, toks []tok, perSite int) []fault {
+	var out []fault
+	bare := func(t tok) string {
+		n := t.text
+		if t.sigil != ':' {
+			n = n[1:]
+		}
+		return n
+	}
+	kindOf := func(t tok) string {
+		switch t.site {
+		case "parameter-definition":
+			return "parameter"
+		case "label-definition":
+			return "label"
+		}
+		line := x[t.start:lineEnd(x, t.start)]
+		for _, k := range []string{"phi", "landingpad", "invoke", "callbr", "call", "alloca", "load"} {
+			if strings.Contains(line, " = "+k+" ") || strings.Contains(line, " "+k+" ") && k == "call" {
+				return k
+			}
+		}
+		return "instruction"
+	}
+	count := map[string]int{}
+	// function extents
+	for off := 0; off < len(x); {
+		i := strings.Index(x[off:], "\ndefine ")
+		if i < 0 {
+			break
+		}
+		start := off + i + 1
+		j := strings.Index(x[start:], "\n}")
+		if j < 0 {
+			break
+		}
+		end := start + j
+		off = end
+		var defs []tok
+		for _, t := range toks {
+			if t.start < start || t.start >= end || !t.def {
+				continue
+			}
+			if t.site != "local-definition" && t.site != "parameter-definition" && t.site != "label-definition" {
+				continue
+			}
+			if b := bare(t); b == "" || b[0] >= '0' && b[0] <= '9' {
+				continue
+			}
+			defs = append(defs, t)
+		}
+		sort.Slice(defs, func(a, b int) bool { return defs[a].start < defs[b].start })
+		for bi := 1; bi < len(defs); bi++ {
+			b := defs[bi]
+			a := defs[(bi*7+len(out))%bi] // some earlier definition
+			if bare(a) == bare(b) {
+				continue
+			}
+			kind := kindOf(a) + "-then-" + kindOf(b)
+			if count[kind] >= perSite {
+				continue
+			}
+			count[kind]++
+			// rename every occurrence of b inside the function, back to front
+			var occ []tok
+			for _, t := range toks {
+				if t.start < start || t.start >= end || strings.HasPrefix(t.site, "type") {
+					continue
+				}
+				if (t.sigil == '%' || t.sigil == ':') && bare(t) == bare(b) {
+					occ = append(occ, t)
+				}
+			}
+			sort.Slice(occ, func(p, q int) bool { return occ[p].start > occ[q].start })
+			y := x
+			for _, t := range occ {
+				repl := bare(a)
+				if t.sigil == '%' {
+					repl = "%" + repl
+				}
+				y = y[:t.start] + repl + y[t.end:]
+			}
+			out = append(out, fault{kind: "collision:" + kind, text: y})
+		}
+	}
 	return out
 }
 
@@ -423,39 +517,39 @@ func TestCatalogue(t *testing.T) {
 	const test = "Catalogue"
 	hx.Rule(test, "hand-written single naming faults at sites the generator does not reach: type alias to an undefined type, alias chain, use-list-order targets, DI field, metadata call argument, named-metadata operand, global duplicated by a function, ifunc resolver, personality, prefix data, comdat of a function")
 	cat := map[string]string{
-		"type-alias-target":       "%a = type %b\n@g = global %a* null\n",
-		"type-in-struct-body":     "%a = type { i32, %b* }\n@g = global %a zeroinitializer\n",
-		"uselistorder-target":     "@g = global i32 0\ndefine void @f() {\n  ret void\n}\nuselistorder i32* @nosuch, { 1, 0 }\n",
-		"uselistorder_bb-block":   "define void @f() {\n  br label %b\nb:\n  ret void\n}\nuselistorder_bb @f, %nosuch, { 1, 0 }\n",
-		"uselistorder_bb-func":    "define void @f() {\n  br label %b\nb:\n  ret void\n}\nuselistorder_bb @nosuch, %b, { 1, 0 }\n",
-		"metadata-DI-field":       "!named = !{!0}\n!0 = !DILocation(line: 1, column: 1, scope: !99)\n",
-		"metadata-call-argument":  "declare void @llvm.foo(metadata)\ndefine void @f() {\n  call void @llvm.foo(metadata !99)\n  ret void\n}\n",
-		"named-metadata-operand":  "!named = !{!99}\n",
-		"function-attachment":     "define void @f() !dbg !99 {\n  ret void\n}\n",
-		"global-attachment":       "@g = global i32 0, !foo !99\n",
-		"duplicate-global-func":   "@x = global i32 0\ndefine void @x() {\n  ret void\n}\n",
-		"duplicate-func-alias":    "@g = global i32 0\ndefine void @x() {\n  ret void\n}\n@x = alias i32, i32* @g\n",
-		"duplicate-param":         "define void @f(i32 %a, i32 %a) {\n  ret void\n}\n",
-		"duplicate-label":         "define void @f() {\n  br label %a\na:\n  br label %a\na:\n  ret void\n}\n",
-		"param-vs-local":          "define i32 @f(i32 %a) {\n  %a = add i32 1, 2\n  ret i32 %a\n}\n",
-		"ifunc-resolver":          "@i = ifunc void (), void ()* ()* @nosuch\n",
-		"personality":             "define void @f() personality i32 ()* @nosuch {\n  ret void\n}\n",
-		"prefix-data":             "define void @f() prefix i32* @nosuch {\n  ret void\n}\n",
-		"function-comdat":         "define void @f() comdat($nosuch) {\n  ret void\n}\n",
-		"implicit-comdat":         "@g = global i32 0, comdat\n",
-		"invoke-unwind-target":    "declare void @g()\ndeclare i32 @p(...)\ndefine void @f() personality i32 (...)* @p {\n  invoke void @g() to label %ok unwind label %nosuch\nok:\n  ret void\n}\n",
-		"switch-case-target":      "define void @f(i32 %x) {\n  switch i32 %x, label %d [ i32 1, label %nosuch ]\nd:\n  ret void\n}\n",
-		"indirectbr-target":       "define void @f(i8* %p) {\n  indirectbr i8* %p, [label %nosuch]\n}\n",
-		"callbr-target":           "define void @f() {\n  callbr void asm \"\", \"X\"(i8* blockaddress(@f, %nosuch)) to label %a [label %nosuch]\na:\n  ret void\n}\n",
-		"constexpr-operand":       "@g = global i64 ptrtoint (i32* @nosuch to i64)\n",
-		"gep-constexpr-base":      "@g = global i32* getelementptr (i32, i32* @nosuch, i64 1)\n",
-		"dso_local_equivalent":    "@g = global void ()* dso_local_equivalent @nosuch\n",
-		"no_cfi":                  "@g = global void ()* no_cfi @nosuch\n",
-		"phi-incoming-value":      "define i32 @f() {\n  br label %b\nb:\n  %p = phi i32 [ %nosuch, %0 ]\n  ret i32 %p\n}\n",
-		"bundle-operand":          "declare void @g()\ndefine void @f() {\n  call void @g() [ \"x\"(i32 %nosuch) ]\n  ret void\n}\n",
-		"metadata-value-local":    "declare void @llvm.foo(metadata)\ndefine void @f() {\n  call void @llvm.foo(metadata i32 %nosuch)\n  ret void\n}\n",
-		"attribute-byval-type":    "declare void @f(i8* byval(%nosuch))\n",
-		"sret-type":               "declare void @f(i8* sret(%nosuch))\n",
+		"type-alias-target":      "%a = type %b\n@g = global %a* null\n",
+		"type-in-struct-body":    "%a = type { i32, %b* }\n@g = global %a zeroinitializer\n",
+		"uselistorder-target":    "@g = global i32 0\ndefine void @f() {\n  ret void\n}\nuselistorder i32* @nosuch, { 1, 0 }\n",
+		"uselistorder_bb-block":  "define void @f() {\n  br label %b\nb:\n  ret void\n}\nuselistorder_bb @f, %nosuch, { 1, 0 }\n",
+		"uselistorder_bb-func":   "define void @f() {\n  br label %b\nb:\n  ret void\n}\nuselistorder_bb @nosuch, %b, { 1, 0 }\n",
+		"metadata-DI-field":      "!named = !{!0}\n!0 = !DILocation(line: 1, column: 1, scope: !99)\n",
+		"metadata-call-argument": "declare void @llvm.foo(metadata)\ndefine void @f() {\n  call void @llvm.foo(metadata !99)\n  ret void\n}\n",
+		"named-metadata-operand": "!named = !{!99}\n",
+		"function-attachment":    "define void @f() !dbg !99 {\n  ret void\n}\n",
+		"global-attachment":      "@g = global i32 0, !foo !99\n",
+		"duplicate-global-func":  "@x = global i32 0\ndefine void @x() {\n  ret void\n}\n",
+		"duplicate-func-alias":   "@g = global i32 0\ndefine void @x() {\n  ret void\n}\n@x = alias i32, i32* @g\n",
+		"duplicate-param":        "define void @f(i32 %a, i32 %a) {\n  ret void\n}\n",
+		"duplicate-label":        "define void @f() {\n  br label %a\na:\n  br label %a\na:\n  ret void\n}\n",
+		"param-vs-local":         "define i32 @f(i32 %a) {\n  %a = add i32 1, 2\n  ret i32 %a\n}\n",
+		"ifunc-resolver":         "@i = ifunc void (), void ()* ()* @nosuch\n",
+		"personality":            "define void @f() personality i32 ()* @nosuch {\n  ret void\n}\n",
+		"prefix-data":            "define void @f() prefix i32* @nosuch {\n  ret void\n}\n",
+		"function-comdat":        "define void @f() comdat($nosuch) {\n  ret void\n}\n",
+		"implicit-comdat":        "@g = global i32 0, comdat\n",
+		"invoke-unwind-target":   "declare void @g()\ndeclare i32 @p(...)\ndefine void @f() personality i32 (...)* @p {\n  invoke void @g() to label %ok unwind label %nosuch\nok:\n  ret void\n}\n",
+		"switch-case-target":     "define void @f(i32 %x) {\n  switch i32 %x, label %d [ i32 1, label %nosuch ]\nd:\n  ret void\n}\n",
+		"indirectbr-target":      "define void @f(i8* %p) {\n  indirectbr i8* %p, [label %nosuch]\n}\n",
+		"callbr-target":          "define void @f() {\n  callbr void asm \"\", \"X\"(i8* blockaddress(@f, %nosuch)) to label %a [label %nosuch]\na:\n  ret void\n}\n",
+		"constexpr-operand":      "@g = global i64 ptrtoint (i32* @nosuch to i64)\n",
+		"gep-constexpr-base":     "@g = global i32* getelementptr (i32, i32* @nosuch, i64 1)\n",
+		"dso_local_equivalent":   "@g = global void ()* dso_local_equivalent @nosuch\n",
+		"no_cfi":                 "@g = global void ()* no_cfi @nosuch\n",
+		"phi-incoming-value":     "define i32 @f() {\n  br label %b\nb:\n  %p = phi i32 [ %nosuch, %0 ]\n  ret i32 %p\n}\n",
+		"bundle-operand":         "declare void @g()\ndefine void @f() {\n  call void @g() [ \"x\"(i32 %nosuch) ]\n  ret void\n}\n",
+		"metadata-value-local":   "declare void @llvm.foo(metadata)\ndefine void @f() {\n  call void @llvm.foo(metadata i32 %nosuch)\n  ret void\n}\n",
+		"attribute-byval-type":   "declare void @f(i8* byval(%nosuch))\n",
+		"sret-type":              "declare void @f(i8* sret(%nosuch))\n",
 	}
 	var names []string
 	for k := range cat {
